@@ -12,7 +12,13 @@ RULE = ('case = (numeric table X on a dyadic grid, integer targets y, how the tr
         'arrays are read back from sklearn and sent to the Lean model as exact rationals; non-trivial = the fitted tree has at '
         'least one split (>= 3 nodes); distinct = distinct (X, y, fit parameters); the malformed stream perturbs the arrays of a '
         'fitted tree (orphan node, feature out of range, contradictory / non-separating thresholds) and only compares '
-        'implementation and model (exception class or predictions)')
+        'implementation and model (exception class or predictions); the growth stream fits trees with every non-default growth '
+        'parameter (max_leaf_nodes = best-first builder with non-pre-order node numbering, min_samples_leaf, ccp_alpha, '
+        'splitter=random, max_features, ExtraTree, members of forests with max_leaf_nodes and of gradient boosting), on small and '
+        'on two-digit-sized contexts and on values that float32 cannot represent (0.1, 19.99); the renumber stream feeds the '
+        'converter hand-renumbered arrays of a fitted tree (level order, right-child-first) and judges against the descent on '
+        'the arrays; every non-malformed case also runs aliasing histories: product/quotient mutated by +=, *=, lattice.add, '
+        'then the original re-asked, and vice versa; the returned prediction array mutated in place then re-asked')
 EXHAUSTIVE = {
     'quick': 'all one-column tables with 1..3 rows over the grid {0,1,2} x all targets over {0,1,3}, unbounded depth (819 trees)',
     'thorough': 'quick scope + all 2-column tables with 1..3 rows over {0,1} x all targets over {0,1,3} at depths 1 and None, '
@@ -57,11 +63,62 @@ def F(x):
     return Fraction(*float(x).as_integer_ratio())
 
 
-def _mk_case(stream, X, y, kind='tree', depth=None, seed=0, est=0, mut=None):
+def _mk_case(stream, X, y, kind='tree', depth=None, seed=0, est=0, mut=None, params=None, renum=None):
     c = dict(stream=stream, X=X, y=y, kind=kind, depth=depth, seed=seed, est=est)
     if mut is not None:
         c['mut'] = mut
+    if params:
+        c['params'] = params          # further keyword arguments of the sklearn estimator (non-default growth)
+    if renum:
+        c['renum'] = renum            # hand-renumbered arrays of the fitted tree: 'bfs' | 'mirror'
     return c
+
+
+def _growth_params(rng):
+    """One non-default way of growing the tree (each is a keyword set of DecisionTreeRegressor)."""
+    return rng.choice([
+        dict(max_leaf_nodes=rng.choice((3, 4, 5, 7, 9))),                 # best-first builder: children numbered k, k+1
+        dict(max_leaf_nodes=rng.choice((4, 6)), min_samples_leaf=2),
+        dict(min_samples_leaf=rng.choice((2, 3))),
+        dict(min_samples_split=rng.choice((3, 4))),
+        dict(ccp_alpha=rng.choice((0.0625, 0.25, 1.0))),
+        dict(splitter='random'),
+        dict(max_features=1),
+        dict(criterion='absolute_error'),
+        dict(max_depth=None, max_leaf_nodes=16, min_samples_leaf=1),
+        dict(min_impurity_decrease=0.125),
+    ])
+
+
+def _growth_cases(rng, tier, boost):
+    """Trees grown with non-default parameters, on small, two-digit-sized and float32-unfriendly contexts."""
+    nctx = 70 if tier == 'quick' else 500
+    if boost:
+        nctx *= 2
+    for it in range(nctx):
+        big = it % 5 == 0
+        n, m = (rng.randint(13, 40), rng.randint(2, 4)) if big else (rng.randint(4, 12), rng.randint(1, 3))
+        grid = rng.choice(GRIDS + ([0.1, 0.2, 0.3, 19.99, 20.0, 0.7],) + (list(range(12)),))
+        ygrid = rng.choice(YS)
+        X = [[float(rng.choice(grid)) for _ in range(m)] for _ in range(n)]
+        y = [float(rng.choice(ygrid)) for _ in range(n)]
+        sd = rng.randint(0, 10 ** 6)
+        # the best-first builder always, plus one other way of growing
+        yield _mk_case('growth', X, y, seed=sd, params=dict(max_leaf_nodes=rng.choice((3, 4, 5, 6, 8, 12))))
+        yield _mk_case('growth', X, y, depth=rng.choice((2, 3, None)), seed=sd, params=_growth_params(rng))
+        if it % 3 == 0:
+            pr = dict(max_leaf_nodes=rng.choice((3, 5, 6)))
+            for e in range(3):
+                yield _mk_case('growth-forest', X, y, kind='forest', seed=sd, est=e, params=pr)
+        if it % 4 == 1:
+            for e in range(2):
+                yield _mk_case('growth-gboost', X, y, kind='gboost', depth=rng.choice((1, 2, 3)), seed=sd, est=e,
+                               params=rng.choice((dict(), dict(max_leaf_nodes=4))))
+        if it % 4 == 2:
+            yield _mk_case('growth-extra', X, y, kind='extra', depth=rng.choice((2, None)), seed=sd)
+        if it % 2 == 0:
+            for rn in ('bfs', 'mirror'):
+                yield _mk_case('renumber', X, y, depth=rng.choice((2, 3, None)), seed=sd, renum=rn)
 
 
 def gen(tier, seed, boost=False):
@@ -89,6 +146,7 @@ def gen(tier, seed, boost=False):
         for xs in itertools.product((0, 1, 2), repeat=4):
             for ys in itertools.product((0, 1, 3), repeat=4):
                 yield _mk_case('exhaustive-4rows', [[float(v)] for v in xs], [float(v) for v in ys])
+    yield from _growth_cases(random.Random(seed * 7919 + 20), tier, boost)
     # seeded random larger cases
     nctx = 150 if tier == 'quick' else 1500
     if boost:
@@ -132,15 +190,66 @@ def gen(tier, seed, boost=False):
 
 def _fit(c):
     import numpy as np
-    from sklearn.tree import DecisionTreeRegressor
-    from sklearn.ensemble import RandomForestRegressor
+    from sklearn.tree import DecisionTreeRegressor, ExtraTreeRegressor
+    from sklearn.ensemble import RandomForestRegressor, GradientBoostingRegressor
+    import warnings
+    warnings.simplefilter('ignore')
     X = np.array(c['X'], dtype=float)
     y = np.array(c['y'], dtype=float)
+    pr = dict(c.get('params') or {})
+    if 'max_depth' in pr:
+        pr.pop('max_depth')
     if c['kind'] == 'forest':
-        rf = RandomForestRegressor(n_estimators=3, bootstrap=True, max_depth=c['depth'], random_state=c['seed'])
+        rf = RandomForestRegressor(n_estimators=3, bootstrap=True, max_depth=c['depth'], random_state=c['seed'], **pr)
         rf.fit(X, y)
         return X, y, rf.estimators_[c['est']]
-    return X, y, DecisionTreeRegressor(max_depth=c['depth'], random_state=c['seed']).fit(X, y)
+    if c['kind'] == 'gboost':
+        gb = GradientBoostingRegressor(n_estimators=2, max_depth=c['depth'], random_state=c['seed'], **pr)
+        gb.fit(X, y)
+        return X, y, gb.estimators_.flatten()[c['est']]
+    if c['kind'] == 'extra':
+        return X, y, ExtraTreeRegressor(max_depth=c['depth'], random_state=c['seed'], **pr).fit(X, y)
+    return X, y, DecisionTreeRegressor(max_depth=c['depth'], random_state=c['seed'], **pr).fit(X, y)
+
+
+def _renumber(arr, how):
+    """The same tree with its nodes numbered differently (parents still before their children):
+    'bfs' = level order, 'mirror' = depth first but the RIGHT child directly after its parent."""
+    left, right = arr['left'], arr['right']
+    order = []
+    if how == 'bfs':
+        queue = [0]
+        while queue:
+            i = queue.pop(0)
+            order.append(i)
+            if left[i] != -1:
+                queue += [left[i], right[i]]
+    else:
+        stack = [0]
+        while stack:
+            i = stack.pop()
+            order.append(i)
+            if left[i] != -1:
+                stack += [left[i], right[i]]          # right is popped first
+    new = {old: k for k, old in enumerate(order)}
+    out = dict(left=[], right=[], feature=[], threshold=[], value=[])
+    for old in order:
+        out['left'].append(-1 if left[old] == -1 else new[left[old]])
+        out['right'].append(-1 if right[old] == -1 else new[right[old]])
+        for k in ('feature', 'threshold', 'value'):
+            out[k].append(arr[k][old])
+    return out
+
+
+def _walk(arr, X):
+    """The tree's own prediction from its arrays: x[feature] <= threshold -> left."""
+    res = []
+    for x in X:
+        i = 0
+        while arr['left'][i] != -1:
+            i = arr['left'][i] if float(x[arr['feature'][i]]) <= arr['threshold'][i] else arr['right'][i]
+        res.append(float(arr['value'][i]))
+    return res
 
 
 def _arrays(tree):
@@ -230,6 +339,11 @@ def impl(c):
             return dict(skip=True)
         tree = _fake_tree(arr)
         out['tree_pred'] = None
+    elif c.get('renum'):
+        out['sk_pred'] = [float(v) for v in tree.predict(X)]
+        arr = _renumber(arr, c['renum'])
+        tree = _fake_tree(arr)
+        out['tree_pred'] = _walk(arr, c['X'])
     else:
         out['tree_pred'] = [float(v) for v in tree.predict(X)]
     out['arrays'] = arr
@@ -283,12 +397,97 @@ def impl(c):
             s['err'] = type(e).__name__
         scaled.append(s)
     out['scaled'] = scaled
+    # the aliasing histories cost several conversions: on the tiny exhaustive tables run them on every third case only
+    if not c.get('mut') and (c['stream'] != 'exhaustive' or int(sum(c['y']) + sum(r[0] for r in c['X'])) % 3 == 0):
+        out['hist'] = _histories(c, tree, K, X, D)
     out['decisions_after'] = _canon_decisions(D)
     try:
         out['pred_after'] = [float(v) for v in D.predict(K)]
     except Exception as e:
         out['pred_after'] = 'err:' + type(e).__name__
     return out
+
+
+def _pred(obj, K):
+    try:
+        return [float(v) for v in obj.predict(K)]
+    except Exception as e:
+        return 'err:' + type(e).__name__
+
+
+def _histories(c, tree, K, X, D):
+    """Aliasing histories (the property: * and / leave the original unchanged, i.e. original and result are independent
+    objects).  Every step mutates ONE object through a public operation and then re-asks the OTHER ones; an expendable
+    second conversion `E` of the same tree plays the original, so the main lattice `D` stays untouched.
+    Returns a list of (label, factor, observed predictions) - the judge expects factor * DL.predict(K)."""
+    import numpy as np
+    from sklearn.tree import DecisionTreeRegressor
+    from fcapy.ml.decision_lattice import DecisionLatticeRegressor as DLR
+    n = len(c['X'])
+    sel = [CONSTS[(n + len(c['X'][0])) % len(CONSTS)], CONSTS[(n + 3 + int(c['y'][0])) % len(CONSTS)]]
+    y_alt = np.array([float((3 * i + 1) % 4) for i in range(n)])
+    other_tree = DecisionTreeRegressor(max_depth=2, random_state=0).fit(X, y_alt)
+    obs = []
+
+    def conv():
+        return DLR.from_decision_tree(tree, K)
+
+    def step(fn):
+        # a failing mutation step is not judged (sums are not part of C20); the re-asked objects are
+        try:
+            fn()
+            return True
+        except Exception:
+            return False
+    try:
+        O = DLR.from_decision_tree(other_tree, K)
+    except Exception:
+        O = None
+    for cst in sel:
+        cf = float(cst)
+        tag = f'c={cst!r}'
+        # A: mutate the PRODUCT (+=), re-ask the original and the sibling quotient
+        E = conv()
+        P, Qd = E * cst, E / cst
+        if O is not None and step(lambda: P.__iadd__(O)):
+            obs.append((f'{tag}: p = dl*c; q = dl/c; p += other  ->  dl', 1.0, _pred(E, K)))
+            obs.append((f'{tag}: p = dl*c; q = dl/c; p += other  ->  q', 1.0 / cf, _pred(Qd, K)))
+        # B: mutate the ORIGINAL (*=, then +=), re-ask product and quotient
+        E = conv()
+        P, Qd = E * cst, E / cst
+        if step(lambda: E.__imul__(K1)):
+            obs.append((f'{tag}: p = dl*c; q = dl/c; dl *= {K1}  ->  p', cf, _pred(P, K)))
+            obs.append((f'{tag}: p = dl*c; q = dl/c; dl *= {K1}  ->  q', 1.0 / cf, _pred(Qd, K)))
+        if O is not None and step(lambda: E.__iadd__(O)):
+            obs.append((f'{tag}: p = dl*c; q = dl/c; dl *= {K1}; dl += other  ->  p', cf, _pred(P, K)))
+            obs.append((f'{tag}: p = dl*c; q = dl/c; dl *= {K1}; dl += other  ->  q', 1.0 / cf, _pred(Qd, K)))
+        # C: a foreign concept added to the QUOTIENT's lattice; product of a product; original re-asked
+        E = conv()
+        Qd = E / cst
+        n_before = len(E.lattice)
+        foreign = [cc for cc in (O.lattice if O is not None else []) if cc not in Qd.lattice]
+        if foreign and step(lambda: Qd.lattice.add(foreign[0])):
+            obs.append((f'{tag}: q = dl/c; q.lattice.add(concept)  ->  dl', 1.0, _pred(E, K)))
+            obs.append((f'{tag}: q = dl/c; q.lattice.add(concept)  ->  len(dl.lattice) unchanged', None,
+                        len(E.lattice) == n_before))
+        PP = (E * cst) * K1
+        if step(lambda: PP.__itruediv__(K2)):
+            obs.append((f'{tag}: pp = (dl*c)*{K1}; pp /= {K2}  ->  dl', 1.0, _pred(E, K)))
+            obs.append((f'{tag}: pp = (dl*c)*{K1}; pp /= {K2}  ->  pp', cf * K1 / K2, _pred(PP, K)))
+    # H2: the returned prediction array mutated in place by the caller, then asked again; an equal, rebuilt context
+    r1 = D.predict(K)
+    try:
+        r1 += 1000.0
+        r1[:] = 0
+    except Exception:
+        pass
+    obs.append(('r = dl.predict(K); r += 1000 (in place)  ->  dl.predict(K)', 1.0, _pred(D, K)))
+    from fcapy.mvcontext import MVContext, pattern_structure as PS
+    names = [str(j) for j in range(X.shape[1])]
+    K2_ = MVContext([[float(v) for v in r] for r in X.tolist()], {nm: PS.IntervalPS for nm in names},
+                    target=[0.0] * n, attribute_names=names)
+    obs.append(('dl.predict(an equal, newly built context)', 1.0, _pred(D, K2_)))
+    return [list(o) for o in obs]
 
 
 # ------------------------------------------------------------------------------------------------ Lean side
@@ -380,15 +579,33 @@ def judge(c, io, rep):
             if not closev(s[k_], w_):
                 return bad('property', f'scaling history {k_} with c={c_!r} ({s["ctype"]}), k1={K1}, k2={K2}: predicts '
                                        f'{s[k_]}, expected {w_}')
-        if not s['fresh']:
-            return bad('property', f'DL*{c_!r} or DL/{c_!r} ({s["ctype"]}) shares state with the original (same object, '
-                                   f'lattice, decisions or generator dictionary)')
         if not s['orig_decisions_kept'] or s['orig_pred'] != io['pred']:
             return bad('property', f'the original changed after p = DL*{c_!r} ({s["ctype"]}); p *= {K1}; p /= {K2} / '
                                    f'q = DL/{c_!r}; q /= {K2}; q *= {K1}: original now predicts {s["orig_pred"]}, before {io["pred"]}')
+    for label, factor, got in io.get('hist', []):
+        if factor is None:
+            if got is not True:
+                return bad('property', f'aliasing history [{label}] failed')
+            continue
+        want_ = [factor * v for v in tp]
+        if isinstance(got, str) or not closev(got, want_):
+            return bad('property', f'aliasing history [{label}]: predicts {got}, expected {want_} '
+                                   f'(tree values {tp} times {factor})')
     if io['decisions_after'] != io['decisions'] or io['pred_after'] != io['pred']:
         return bad('property', 'the original decision lattice changed after * and /')
+    # identity of the parts.  The model's `mul`/`truediv` are deep copies; an implementation whose result shares the
+    # object itself, the lattice, the decisions or the generator dictionary with the original differs from the model on an
+    # observable the property does not pin by itself (sharing is harmless until somebody mutates) - the behavioural
+    # histories above are what decides the property, so this is reported as a correspondence failure.
+    for s in io['scaled']:
+        if not s['fresh']:
+            return bad('correspondence', f'DL*{s["c"]!r} or DL/{s["c"]!r} ({s["ctype"]}) shares state with the original '
+                                         f'(same object, lattice, decisions or generator dictionary)')
+    if c.get('renum') and not closev(io['tree_pred'], io['sk_pred']):
+        return bad('harness', f'renumbering changed the tree: walk {io["tree_pred"]} sklearn {io["sk_pred"]}')
     # ---- Lean checker on the implementation's records ----------------------------------------------------------------
+    if not r['wf'] and (c['kind'] == 'extra' or (c.get('params') or {}).get('splitter') == 'random'):
+        return dict(ok=True)        # a random threshold within eps of a data value: outside the modelled scope, property held
     if not r['wf']:
         return bad('harness', 'generated case is outside the theorem\'s hypothesis: wellFormed = false for a fitted tree')
     if not r.get('fitted'):
@@ -470,7 +687,7 @@ def nontrivial(c):
 
 def key(c):
     return [c['X'], c['y'], c['kind'], c['depth'], c['seed'] if (c['kind'] == 'forest' or len(c['X'][0]) > 1) else 0,
-            c['est'], c.get('mut')]
+            c['est'], c.get('mut'), c.get('params'), c.get('renum')]
 
 
 def branch(c, io, rep):
@@ -482,6 +699,9 @@ def branch(c, io, rep):
     out.append('err:' + io['err'] if 'err' in io else 'ok')
     if 'lattice' in io:
         out.append('bottom-added' if io['lattice']['n_concepts'] > n else 'no-bottom-added')
+    a_ = io.get('arrays') or {}
+    if a_ and any(l != -1 and l != i + 1 for i, l in enumerate(a_['left'])):
+        out.append('non-preorder-numbering')
     if io.get('decisions') and any('num' in (d or {}) if isinstance(d, dict) else False
                                    for r in io['decisions'] for _, d in r['gen']):
         out.append('premise-collapsed')
@@ -494,7 +714,7 @@ def signature(c, io, rep, v):
         return f'C20:malformed:{c["mut"]}'
     if 'raised' in d and 'err' in io:
         return 'C20:exc:' + io['err']
-    for tag, word in (('pred', 'tree.predict'), ('scale', 'scaling history'), ('pure', 'original changed'), ('pure', 'changed after'), ('pure', 'shares state'),
+    for tag, word in (('pred', 'tree.predict'), ('scale', 'scaling history'), ('pure', 'original changed'), ('pure', 'changed after'), ('pure', 'shares state'), ('alias', 'aliasing history'),
                       ('recs', 'generator records'), ('lattice', 'lattice differs'), ('decisions', 'decisions differ'),
                       ('descent', 'standard descent')):
         if word in d:
